@@ -12,6 +12,7 @@ import (
 	"strings"
 	"testing"
 
+	jsonpatch "github.com/evanphx/json-patch"
 	admissionv1 "k8s.io/api/admission/v1"
 	corev1 "k8s.io/api/core/v1"
 	schedulingv1 "k8s.io/api/scheduling/v1"
@@ -445,6 +446,8 @@ type c13Profile struct {
 	probPercent                           bool // spec.probability written as the string "<prob>%"
 	probInvalid                           bool // spec.probability is a string that is no percentage: the admission fails
 	pcMissing                             bool // spec.priorityClassName names no PriorityClass: the admission fails when applied
+	hasProbStr                            bool // spec.probability is the STRING probStr, handed to the model as bytes (the model parses it)
+	probStr                               string
 	hasQoS                                bool
 	qos                                   string // spec.qosClass (non-empty when hasQoS)
 	hasPrio                               int
@@ -466,13 +469,34 @@ func (p *c13Profile) simple() bool {
 	return len(p.keyMap) == 0 && len(p.suffixes) == 0 && len(p.patchRes) == 0
 }
 
+// c13PercentOf: "<integer>%" -> the integer (the documented form of a percentage), restated for the oracle
+func c13PercentOf(s string) (int, bool) {
+	if !strings.HasSuffix(s, "%") {
+		return 0, false
+	}
+	v, err := strconv.Atoi(strings.TrimSuffix(s, "%"))
+	return v, err == nil
+}
+
 func (p *c13Profile) skipped(rnd int) bool {
 	percent := 100
 	if p.hasProb == 1 {
 		percent = p.prob
 	}
+	if p.hasProbStr {
+		v, ok := c13PercentOf(p.probStr)
+		if !ok {
+			return false // the admission fails
+		}
+		percent = v
+	}
 	return percent == 0 || (percent != 100 && rnd > percent)
 }
+
+// the shapes of a string-typed spec.probability: percentages (0, 50, 100, signs, leading zeros, out of range)
+// and texts that are no percentage
+var c13ProbStrs = []string{"0%", "0%", "0%", "50%", "50%", "100%", "100%", "30%", "+50%", "-5%", "150%", "050%", "00%", "-0%",
+	"half", "50", "%", "", " 50%", "5 0%", "50%%", "1e2%", "0x10%", "50% ", "+%", "-%"}
 
 func c13EncKVs(kvs []c13KV) string {
 	parts := []string{strconv.Itoa(len(kvs))}
@@ -499,6 +523,15 @@ func (p *c13Profile) opLine() string {
 		parts = append(parts, strconv.Itoa(rp.ctr), strconv.Itoa(rp.isLimit), strconv.Itoa(rp.res), c13Nano(rp.q).String())
 	}
 	return strings.Join(parts, " ")
+}
+
+// opLines: the profile line, plus the raw string of a string-typed probability
+func (p *c13Profile) opLines() []string {
+	out := []string{p.opLine()}
+	if p.hasProbStr {
+		out = append(out, fmt.Sprintf("probstr %d %s", p.name, c13EncStr(p.probStr)))
+	}
+	return out
 }
 
 func c13GenMutatingPod(r *vRand) *corev1.Pod {
@@ -631,6 +664,10 @@ func c13GenProfiles(r *vRand, pod *corev1.Pod) []c13Profile {
 		if r.Chance(1, 40) {
 			p.probInvalid = true
 		}
+		if r.Chance(1, 7) { // a string-typed probability whose parse is the model's business
+			p.hasProb, p.prob, p.probPercent, p.probInvalid = 0, 0, false, false
+			p.hasProbStr, p.probStr = true, c13PickStr(r, c13ProbStrs)
+		}
 		if r.Chance(1, 2) {
 			p.hasQoS = true
 			if q := int(r.Pick([]int64{4, 4, 4, 3, 2, 1, 5, 0})); q == 0 {
@@ -700,6 +737,25 @@ func c13GenProfiles(r *vRand, pod *corev1.Pod) []c13Profile {
 			}
 		}
 		ps = append(ps, p)
+	}
+	// every profile switched off by its probability (0 / "0%" / a percentage below every draw > it): the pod is
+	// admitted by matching profiles none of which is applied
+	if len(ps) > 0 && r.Chance(1, 7) {
+		for i := range ps {
+			p := &ps[i]
+			p.probInvalid, p.probPercent, p.hasProbStr, p.probStr = false, false, false, ""
+			switch r.Intn(4) {
+			case 0:
+				p.hasProb, p.prob = 1, 0
+			case 1:
+				p.hasProb, p.prob, p.probPercent = 1, 0, true
+			case 2:
+				p.hasProb, p.prob = 0, 0
+				p.hasProbStr, p.probStr = true, c13PickStr(r, []string{"0%", "00%", "-0%", "+0%"})
+			case 3:
+				p.hasProb, p.prob = 1, int(r.Pick([]int64{1, 29, 30, 50})) // skipped for the larger draws
+			}
+		}
 	}
 	return ps
 }
@@ -777,6 +833,10 @@ func c13ProfileObjects(ps []c13Profile) []ctrlclient.Object {
 		}
 		if p.probInvalid {
 			v := intstr.FromString("half")
+			o.Spec.Probability = &v
+		}
+		if p.hasProbStr {
+			v := intstr.FromString(p.probStr)
 			o.Spec.Probability = &v
 		}
 		if p.pcMissing {
@@ -865,10 +925,14 @@ func c13SameQ(a resource.Quantity, okA bool, b *big.Int, okB bool) bool {
 
 // c13CheckList: `after` must be `before` with cpu/memory moved to the tier names, amounts kept.
 // defaulted names the tier entries that may have been added to requests from limits.
+// c13Fp: fingerprint prefix of the oracle clauses below: "C13:" on the in-memory pod of the two steps,
+// "C13:stored-" on the pod the API server stores after Handle.
+var c13Fp = "C13:"
+
 func c13CheckList(h *vHarness, where string, tier [2]corev1.ResourceName, before, after corev1.ResourceList, isRequests bool, limitsAfter corev1.ResourceList) {
 	for _, n := range []corev1.ResourceName{"cpu", "memory"} {
 		if _, ok := after[n]; ok {
-			h.Fail("C13:native-left", "%s still has %s after translation", where, n)
+			h.Fail(c13Fp+"native-left", "%s still has %s after translation", where, n)
 		}
 	}
 	want := map[corev1.ResourceName]*big.Int{}
@@ -895,9 +959,9 @@ func c13CheckList(h *vHarness, where string, tier [2]corev1.ResourceName, before
 		q, ok := after[k]
 		if !c13SameQ(q, ok, w, true) {
 			if k == tier[0] || k == tier[1] {
-				h.Fail("C13:amount-changed", "%s: %s should be %s nano-units, got present=%v %s", where, k, w, ok, q.String())
+				h.Fail(c13Fp+"amount-changed", "%s: %s should be %s nano-units, got present=%v %s", where, k, w, ok, q.String())
 			} else {
-				h.Fail("C13:foreign-changed", "%s: %s changed", where, k)
+				h.Fail(c13Fp+"foreign-changed", "%s: %s changed", where, k)
 			}
 		}
 	}
@@ -908,17 +972,17 @@ func c13CheckList(h *vHarness, where string, tier [2]corev1.ResourceName, before
 		if isRequests && (k == tier[0] || k == tier[1]) {
 			lq, lok := limitsAfter[k]
 			if !lok || lq.Cmp(q) != 0 {
-				h.Fail("C13:request-not-limit", "%s: request %s appeared but is not the limit", where, k)
+				h.Fail(c13Fp+"request-not-limit", "%s: request %s appeared but is not the limit", where, k)
 			}
 			continue
 		}
-		h.Fail("C13:entry-appeared", "%s: %s appeared", where, k)
+		h.Fail(c13Fp+"entry-appeared", "%s: %s appeared", where, k)
 	}
 	if isRequests {
 		for _, k := range tier {
 			if _, lok := limitsAfter[k]; lok {
 				if _, rok := after[k]; !rok {
-					h.Fail("C13:request-not-defaulted", "%s: limit %s without request", where, k)
+					h.Fail(c13Fp+"request-not-defaulted", "%s: limit %s without request", where, k)
 				}
 			}
 		}
@@ -929,7 +993,7 @@ func c13CheckAnnotation(h *vHarness, pod *corev1.Pod) {
 	spec := &c13ExtSpec{}
 	if data, ok := pod.Annotations["node.koordinator.sh/extended-resource-spec"]; ok {
 		if err := json.Unmarshal([]byte(data), spec); err != nil {
-			h.Fail("C13:annotation-mismatch", "annotation does not parse: %v", err)
+			h.Fail(c13Fp+"annotation-mismatch", "annotation does not parse: %v", err)
 			return
 		}
 	}
@@ -953,33 +1017,207 @@ func c13CheckAnnotation(h *vHarness, pod *corev1.Pod) {
 					any = true
 				}
 				if cok != aok || (cok && cq.Cmp(aq) != 0) {
-					h.Fail("C13:annotation-mismatch", "container %s %s list %d: spec present=%v annotation present=%v", c.Name, k, li, cok, aok)
+					h.Fail(c13Fp+"annotation-mismatch", "container %s %s list %d: spec present=%v annotation present=%v", c.Name, k, li, cok, aok)
 				}
 			}
 		}
 		if any != has {
-			h.Fail("C13:annotation-mismatch", "container %s: has batch entries=%v, in annotation=%v", c.Name, any, has)
+			h.Fail(c13Fp+"annotation-mismatch", "container %s: has batch entries=%v, in annotation=%v", c.Name, any, has)
 		}
 		seen[c.Name] = true
 	}
 	for n := range spec.Containers {
 		if !seen[n] {
-			h.Fail("C13:annotation-mismatch", "annotation names %s which is not a container", n)
+			h.Fail(c13Fp+"annotation-mismatch", "annotation names %s which is not a container", n)
 		}
+	}
+}
+
+// c13OracleFirst: the property's clauses on one admission, `before` = the pod as submitted, `pod` = the pod that
+// came out (in memory after the two steps, or as stored by the API server after Handle + JSON patch).  pfx prefixes
+// the histogram tags.  Returns whether every applied profile is simple (hypothesis of readmission_idempotent).
+func c13OracleFirst(h *vHarness, before, pod *corev1.Pod, profiles []c13Profile, create, gate bool, rnd int, pfx string) bool {
+	anyMatched, anySkipRes, appliedSimple, resPatched := false, false, true, false
+	applied := 0
+	for i := range profiles {
+		p := &profiles[i]
+		if p.matched == 1 {
+			anyMatched = true
+			if p.skipRes == 1 {
+				anySkipRes = true
+			}
+			if create && !p.skipped(rnd) {
+				applied++
+				if !p.simple() {
+					appliedSimple = false
+				}
+				if len(p.patchRes) > 0 {
+					resPatched = true
+				}
+				if len(p.keyMap) > 0 {
+					h.Tag(pfx + "profile:keymap")
+				}
+				if len(p.suffixes) > 0 {
+					h.Tag(pfx + "profile:suffix")
+				}
+				if p.hasPatch {
+					h.Tag(pfx + "profile:patch")
+				}
+				if len(p.labels) > 0 {
+					h.Tag(pfx + "profile:labels")
+				}
+			}
+		}
+	}
+	nonNeg := c13AllNonNegative(before)
+	if !nonNeg {
+		h.Tag(pfx + "quantities:negative")
+	}
+	if before.Spec.Resources != nil {
+		h.Tag(pfx + "podlevel:set")
+	}
+	pc := c13OraclePC(pod) // explicit class of the pod as admitted (after the profiles)
+	h.Tag(pfx + "class:" + pc)
+	tier, isTier := c13Tier[pc]
+	if create && anyMatched && applied == 0 {
+		h.Tag(pfx + "profiles:all-skipped")
+		if !anySkipRes && !gate && isTier {
+			h.Tag(pfx + "translated-though-all-skipped:" + pc)
+		}
+	}
+	if create && anyMatched && !anySkipRes && !gate && isTier {
+		for _, cs := range [][]corev1.Container{pod.Spec.InitContainers, pod.Spec.Containers} {
+			for i := range cs {
+				for _, l := range []corev1.ResourceList{cs[i].Resources.Requests, cs[i].Resources.Limits} {
+					for _, n := range []corev1.ResourceName{"cpu", "memory"} {
+						if _, ok := l[n]; ok {
+							h.Fail(c13Fp+"native-left", "container %s still has %s after translation", cs[i].Name, n)
+						}
+					}
+				}
+			}
+		}
+	}
+	// amounts: compared against the pod before admission, so only when no applied profile patched
+	// resources, and (the statement speaks of amounts) only for non-negative quantities
+	if create && anyMatched && !anySkipRes && !gate && isTier && !resPatched && nonNeg {
+		h.Tag(pfx + "translated:" + pc)
+		h.Nontrivial()
+		for li, lists := range [][2][]corev1.Container{{before.Spec.InitContainers, pod.Spec.InitContainers}, {before.Spec.Containers, pod.Spec.Containers}} {
+			if len(lists[0]) != len(lists[1]) {
+				h.Fail(c13Fp+"container-count", "containers added or removed")
+				continue
+			}
+			for i := range lists[0] {
+				where := fmt.Sprintf("list %d container %d", li, i)
+				b, a := lists[0][i].Resources, lists[1][i].Resources
+				c13CheckList(h, where+" limits", tier, b.Limits, a.Limits, false, nil)
+				c13CheckList(h, where+" requests", tier, b.Requests, a.Requests, true, a.Limits)
+			}
+		}
+		c13CheckList(h, "overhead", tier, before.Spec.Overhead, pod.Spec.Overhead, false, nil)
+	}
+	if create {
+		c13CheckAnnotation(h, pod)
+	}
+	return appliedSimple
+}
+
+// c13Env: the envelope of the admission request sent through Handle.
+type c13Env struct {
+	op       int // 0 CREATE 1 UPDATE 2 DELETE 3 CONNECT
+	sub      int // index into c13SubResources (0 = none)
+	res      int // index into c13Resources_ (0 = pods)
+	noObject bool
+}
+
+var c13Operations = []admissionv1.Operation{admissionv1.Create, admissionv1.Update, admissionv1.Delete, admissionv1.Connect}
+var c13SubResources = []string{"", "status", "ephemeralcontainers", "binding", "eviction", "resize"}
+var c13ResourceNames = []string{"pods", "podtemplates", "deployments", ""}
+
+// c13ViaHandle sends the raw JSON through PodMutatingHandler.Handle, applies the response's JSON patch to the
+// submitted JSON (what the API server does), decodes the result and evaluates the property on THAT pod.
+func c13ViaHandle(h *vHarness, handler *PodMutatingHandler, raw []byte, submitted *corev1.Pod, profiles []c13Profile, gate bool, rnd int, env c13Env) {
+	h.Op("handle %d %d %d %d %d %d", env.op, env.sub, vB(env.res == 0), vB(!env.noObject), vB(gate), rnd)
+	req := admission.Request{AdmissionRequest: admissionv1.AdmissionRequest{
+		Resource:    metav1.GroupVersionResource{Group: "", Version: "v1", Resource: c13ResourceNames[env.res]},
+		SubResource: c13SubResources[env.sub], Namespace: "default", Name: "p",
+		Operation: c13Operations[env.op], Object: runtime.RawExtension{}, OldObject: runtime.RawExtension{}}}
+	if !env.noObject {
+		req.Object.Raw = raw
+		if env.op == 1 {
+			req.OldObject.Raw = raw
+		}
+	} else if env.op == 2 {
+		req.OldObject.Raw = raw // the shape of a real DELETE
+	}
+	var resp admission.Response
+	if h.Guard(func() { resp = handler.Handle(context.TODO(), req) }) {
+		h.Obs("panic")
+		return
+	}
+	h.Tag(fmt.Sprintf("handle:op%d/sub%d/res%d/obj%d", env.op, vB(env.sub != 0), vB(env.res == 0), vB(!env.noObject)))
+	if !resp.Allowed {
+		h.Obs("hresp 0")
+		h.Tag("handle:rejected")
+		return
+	}
+	h.Obs("hresp 1")
+	storedJSON := raw
+	if len(resp.Patches) > 0 {
+		h.Tag("handle:patched")
+		pb, err := json.Marshal(resp.Patches)
+		if err == nil {
+			var patch jsonpatch.Patch
+			if patch, err = jsonpatch.DecodePatch(pb); err == nil {
+				storedJSON, err = patch.Apply(raw)
+			}
+		}
+		if err != nil {
+			h.Fail("C13:stored-patch-unusable", "the response's JSON patch does not apply to the submitted object: %v", err)
+			return
+		}
+	} else {
+		h.Tag("handle:no-patch")
+	}
+	stored := &corev1.Pod{}
+	if err := json.Unmarshal(storedJSON, stored); err != nil {
+		h.Fail("C13:stored-patch-unusable", "the patched object is no pod: %v", err)
+		return
+	}
+	c13Obs(h, stored)
+	if env.op == 0 && env.sub == 0 && env.res == 0 {
+		// the request is a pod CREATE: the stored pod must obey the translation clauses
+		c13Fp = "C13:stored-"
+		c13OracleFirst(h, submitted, stored, profiles, true, gate, rnd, "stored:")
+		c13Fp = "C13:"
 	}
 }
 
 // c13RunMutatingCase: one case of the mutating harness (ops, observations, oracle); the caller brackets it
 // with h.Begin / h.End.
-func c13RunMutatingCase(h *vHarness, t *testing.T, decoder admission.Decoder, pod *corev1.Pod, profiles []c13Profile, create, gate bool, rnd int) {
-	h.Op("pod 0 %s", c13EncPod(pod))
+func c13RunMutatingCase(h *vHarness, t *testing.T, decoder admission.Decoder, pod *corev1.Pod, profiles []c13Profile, create, gate bool, rnd int, env c13Env) {
+	// the request as a client submits it: the pod's JSON; `submitted` is what a decoder makes of it
+	raw, _ := json.Marshal(pod)
+	submitted := &corev1.Pod{}
+	if err := json.Unmarshal(raw, submitted); err != nil {
+		t.Fatalf("C13: generated pod does not survive JSON: %v", err)
+	}
+	h.Op("pod 0 %s", c13EncPod(submitted))
 	for i := range profiles {
-		h.Op("%s", profiles[i].opLine())
+		for _, l := range profiles[i].opLines() {
+			h.Op("%s", l)
+		}
 	}
 	client := fake.NewClientBuilder().WithScheme(scheme.Scheme).WithObjects(c13ProfileObjects(profiles)...).Build()
 	handler := &PodMutatingHandler{Client: client, Decoder: decoder}
 	randIntnFn = func(int) int { return rnd }
 	restore := feature.SetFeatureGateDuringTest(t, feature.DefaultMutableFeatureGate, features.ColocationProfileSkipMutatingResources, gate)
+
+	// ---- through the entry point: PodMutatingHandler.Handle on the raw JSON, then the response's JSON patch applied
+	// to the submitted JSON = the object the API server stores and the user reads back ----
+	c13ViaHandle(h, handler, raw, submitted, profiles, gate, rnd, env)
+	h.Op("pod 0 %s", c13EncPod(pod))
 	op := admissionv1.Create
 	if !create {
 		op = admissionv1.Update
@@ -1050,81 +1288,7 @@ func c13RunMutatingCase(h *vHarness, t *testing.T, decoder admission.Decoder, po
 	if ok {
 		h.Tag("admit:ok")
 		// ---- property oracle on the first admission ----
-		anyMatched, anySkipRes, appliedSimple, resPatched := false, false, true, false
-		for i := range profiles {
-			p := &profiles[i]
-			if p.matched == 1 {
-				anyMatched = true
-				if p.skipRes == 1 {
-					anySkipRes = true
-				}
-				if create && !p.skipped(rnd) {
-					if !p.simple() {
-						appliedSimple = false
-					}
-					if len(p.patchRes) > 0 {
-						resPatched = true
-					}
-					if len(p.keyMap) > 0 {
-						h.Tag("profile:keymap")
-					}
-					if len(p.suffixes) > 0 {
-						h.Tag("profile:suffix")
-					}
-					if p.hasPatch {
-						h.Tag("profile:patch")
-					}
-					if len(p.labels) > 0 {
-						h.Tag("profile:labels")
-					}
-				}
-			}
-		}
-		nonNeg := c13AllNonNegative(before)
-		if !nonNeg {
-			h.Tag("quantities:negative")
-		}
-		if before.Spec.Resources != nil {
-			h.Tag("podlevel:set")
-		}
-		pc := c13OraclePC(pod) // explicit class of the pod as admitted (after the profiles)
-		h.Tag("class:" + pc)
-		tier, isTier := c13Tier[pc]
-		if create && anyMatched && !anySkipRes && !gate && isTier {
-			for _, cs := range [][]corev1.Container{pod.Spec.InitContainers, pod.Spec.Containers} {
-				for i := range cs {
-					for _, l := range []corev1.ResourceList{cs[i].Resources.Requests, cs[i].Resources.Limits} {
-						for _, n := range []corev1.ResourceName{"cpu", "memory"} {
-							if _, ok := l[n]; ok {
-								h.Fail("C13:native-left", "container %s still has %s after translation", cs[i].Name, n)
-							}
-						}
-					}
-				}
-			}
-		}
-		// amounts: compared against the pod before admission, so only when no applied profile patched
-		// resources, and (the statement speaks of amounts) only for non-negative quantities
-		if create && anyMatched && !anySkipRes && !gate && isTier && !resPatched && nonNeg {
-			h.Tag("translated:" + pc)
-			h.Nontrivial()
-			for li, lists := range [][2][]corev1.Container{{before.Spec.InitContainers, pod.Spec.InitContainers}, {before.Spec.Containers, pod.Spec.Containers}} {
-				if len(lists[0]) != len(lists[1]) {
-					h.Fail("C13:container-count", "containers added or removed")
-					continue
-				}
-				for i := range lists[0] {
-					where := fmt.Sprintf("list %d container %d", li, i)
-					b, a := lists[0][i].Resources, lists[1][i].Resources
-					c13CheckList(h, where+" limits", tier, b.Limits, a.Limits, false, nil)
-					c13CheckList(h, where+" requests", tier, b.Requests, a.Requests, true, a.Limits)
-				}
-			}
-			c13CheckList(h, "overhead", tier, before.Spec.Overhead, pod.Spec.Overhead, false, nil)
-		}
-		if create {
-			c13CheckAnnotation(h, pod)
-		}
+		appliedSimple := c13OracleFirst(h, before, pod, profiles, create, gate, rnd, "")
 		// ---- admitting the result again changes nothing ----
 		// (demanded exactly under the hypothesis of theorem readmission_idempotent: every applied
 		// profile is simple; label suffixes / key mappings / resource patches are not idempotent by design)
@@ -1164,7 +1328,23 @@ func TestVerifC13Mutating(t *testing.T) {
 		gate := r.Chance(1, 15)
 		rnd := int(r.Pick([]int64{0, 29, 30, 31, 50, 51, 99}))
 
-		c13RunMutatingCase(h, t, decoder, pod, profiles, create, gate, rnd)
+		// the envelope sent through Handle: mostly the plain request of the operation; rarely a sub-resource, a
+		// foreign resource, CONNECT, or DELETE (which carries no object)
+		env := c13Env{}
+		if !create {
+			env.op = int(r.Pick([]int64{1, 1, 1, 1, 3, 2}))
+			env.noObject = env.op == 2 && r.Chance(2, 3)
+		}
+		if r.Chance(1, 25) {
+			env.sub = r.Range(1, len(c13SubResources)-1)
+		}
+		if r.Chance(1, 40) {
+			env.res = r.Range(1, len(c13ResourceNames)-1)
+		}
+		if r.Chance(1, 60) {
+			env.noObject = true
+		}
+		c13RunMutatingCase(h, t, decoder, pod, profiles, create, gate, rnd, env)
 		h.End()
 	}
 	h.Close("one pod (QoS/priority by label, value, profile or default; a foreign label; 0-4 containers, 0-2 init containers (1/3 sidecars), overhead, " +
@@ -1205,7 +1385,13 @@ func TestVerifC13MutatingExhaustive(t *testing.T) {
 		{{name: 1, matched: 1, hasQoS: true, qos: "BE", hasPrio: 1, prio: 5500}},
 		{{name: 2, matched: 1, hasPatch: true, patchLabels: []c13KV{{1, "koord-mid"}}}},
 		{{name: 3, matched: 1, skipRes: 1, hasQoS: true, qos: "BE", hasPrio: 1, prio: 5999}},
+		// matching profiles that are switched off by their probability: 0, "0%", 50 with the draw 51; and 50 with the draw 50 (applied)
+		{{name: 4, matched: 1, hasProb: 1, prob: 0, hasQoS: true, qos: "BE", hasPrio: 1, prio: 5500}},
+		{{name: 5, matched: 1, hasProbStr: true, probStr: "0%", hasQoS: true, qos: "BE", hasPrio: 1, prio: 5500}},
+		{{name: 6, matched: 1, hasProb: 1, prob: 50, hasQoS: true, qos: "BE", hasPrio: 1, prio: 5500}},
+		{{name: 7, matched: 1, hasProb: 1, prob: 50, hasQoS: true, qos: "BE", hasPrio: 1, prio: 5500}},
 	}
+	rnds := []int{0, 0, 0, 0, 0, 0, 51, 50}
 	idx := 0
 	for _, sc := range srcs {
 		for _, rc := range []string{"", "500m", "0.0005"} {
@@ -1244,7 +1430,7 @@ func TestVerifC13MutatingExhaustive(t *testing.T) {
 											}
 											profiles := append([]c13Profile(nil), ps...)
 											h.Tag(fmt.Sprintf("x:profileset:%d", pi))
-											c13RunMutatingCase(h, t, decoder, pod, profiles, true, false, 0)
+											c13RunMutatingCase(h, t, decoder, pod, profiles, true, false, rnds[pi], c13Env{})
 											h.End()
 										}
 									}
@@ -1256,7 +1442,36 @@ func TestVerifC13MutatingExhaustive(t *testing.T) {
 			}
 		}
 	}
-	h.Extra("exhaustive", fmt.Sprintf("7 class sources x 192 container shapes x 2 overheads x 4 profile sets: %d cases", idx))
+	// the envelope of the request through Handle, exhaustively: operation x sub-resource x resource x object present,
+	// on a mid pod with native cpu/memory x {no profile, an applied batch profile, a switched-off profile}
+	nShapes := idx
+	for op := 0; op < len(c13Operations); op++ {
+		for sub := 0; sub < len(c13SubResources); sub++ {
+			for res := 0; res < len(c13ResourceNames); res++ {
+				for _, noObj := range []bool{false, true} {
+					for _, pi := range []int{0, 1, 4} {
+						r := h.Begin(idx)
+						idx++
+						if r == nil {
+							continue
+						}
+						v := int32(7500)
+						pod := &corev1.Pod{ObjectMeta: metav1.ObjectMeta{Namespace: "default", Name: "p"}}
+						pod.Spec.Priority = &v
+						pod.Spec.Containers = []corev1.Container{{Name: "c0", Resources: corev1.ResourceRequirements{
+							Requests: corev1.ResourceList{"cpu": resource.MustParse("500m")},
+							Limits:   corev1.ResourceList{"cpu": resource.MustParse("1"), "memory": resource.MustParse("1Gi")}}}}
+						profiles := append([]c13Profile(nil), profileSets[pi]...)
+						h.Tag(fmt.Sprintf("x:envelope:profileset:%d", pi))
+						c13RunMutatingCase(h, t, decoder, pod, profiles, op == 0, false, 0, c13Env{op: op, sub: sub, res: res, noObject: noObj})
+						h.End()
+					}
+				}
+			}
+		}
+	}
+	h.Extra("exhaustive", fmt.Sprintf("7 class sources x 192 container shapes x 2 overheads x 8 profile sets: %d cases; + envelope: 4 operations x 6 sub-resources x 4 resources x object present x 3 profile sets: %d cases",
+		nShapes, idx-nShapes))
 	h.Close("exhaustive enumeration: one container over every presence pattern of requests/limits cpu, memory, batch-cpu and requests mid-memory " +
 		"(sub-milli and milli cpu), x class source (priority value per range, QoS BE / LS, Kubernetes default) x overhead x {no profile, simple " +
 		"batch profile, mid-by-label-patch profile, skip-update-resources profile}; admitted twice + through handleCreate; non-trivial as in the random stream")
